@@ -1,6 +1,6 @@
 (* The simplex-noise output bound on exact reals: |0.395 * (n0 + n1)| <= 1 for every phase,
    every pair of table entries and the gradients as coded (Interval: bisection + Taylor models;
-   the margin is 1.6e-4).  The rounded (binary64) evaluation is NOT covered here. *)
+   the margin is 1.6e-4).  The rounded (binary64) evaluation is covered by OscSimplexRnd.v / OscSimplexIEEE.v. *)
 Require Import ZArith Reals Lia Lra.
 From Flocq Require Import Core.
 From Dasp Require Import Signal.OscNum Signal.Osc Signal.OscSimplexCore.
